@@ -3,7 +3,7 @@
    2..MaxArity, optional unary nodes, three branch-length patterns); one step computes what the
    public calls must return (res); the invariants are the laws of the property. *)
 EXTENDS Phylo, TLC
-CONSTANTS MaxLeaves, MaxArity, Pats
+CONSTANTS MaxLeaves, MaxArity, Pats, UnaryUpTo     \* unary nodes and chains in the trees with <= UnaryUpTo leaves
 VARIABLES inp, res, phase
 vars == <<inp, res, phase>>
 
@@ -22,7 +22,7 @@ Results(t) ==
    mirror |-> Mirror(t),               \* an equal tree (children unordered)
    other  |-> Stretch(t, 0)]           \* an unequal tree (one branch longer)
 
-IsInput(x) == \E n \in 1..MaxLeaves, pat \in Pats : x \in TreesOver(0..(n - 1), MaxArity, TRUE, pat)
+IsInput(x) == \E n \in 1..MaxLeaves, pat \in Pats : x \in TreesOver(0..(n - 1), MaxArity, n <= UnaryUpTo, pat)
 Init == IsInput(inp) /\ res = <<>> /\ phase = 0
 Next == phase = 0 /\ phase' = 1 /\ res' = Results(inp) /\ UNCHANGED inp
 Spec == Init /\ [][Next]_vars
